@@ -181,6 +181,20 @@ func JudgeC15(c *Ctx, h *History, obs []*Obs) ([]Violation, error) {
 				break
 			}
 			for _, cv := range pred[p] {
+				// a converter written into another package than the one declaring it must
+				// import that package (its types, and for variables the variables, live there)
+				if pkgOf[p].PkgPath != importPath(cv.Dir) {
+					imported := false
+					for _, im := range f.Imports {
+						if strings.Trim(im.Path.Value, `"`) == importPath(cv.Dir) {
+							imported = true
+						}
+					}
+					if !imported {
+						add("declaring-package-not-imported", fmt.Sprintf("%s (package %s) holds converter %s of package %s but does not import it: the code was rendered for the wrong package", p, pkgOf[p].PkgPath, cv.Name, importPath(cv.Dir)))
+						break
+					}
+				}
 				if !declares(f, cv) {
 					add("converter-missing", fmt.Sprintf("%s lacks the declaration for converter %s (%s)", p, cv.Name, cv.Kind))
 					break
